@@ -320,6 +320,58 @@ def run_lines(cmd, lines, timeout=120, env=None):
     return rc, ls, e.decode(errors="replace")
 
 
+def run_lines_stall(cmd, lines, timeout=300, stall=25, env=None):
+    """Like run_lines, but also gives up when the child produces no output for `stall` seconds
+    (a hang then costs seconds instead of the whole budget). rc = -999 on timeout/stall."""
+    import threading
+    e = dict(os.environ)
+    e.update(ASAN_ENV)
+    if env:
+        e.update(env)
+    data = ("\n".join(lines) + "\n").encode()
+    p = subprocess.Popen(cmd, stdin=subprocess.PIPE, stdout=subprocess.PIPE, stderr=subprocess.PIPE, env=e)
+    out, err, last = [], [], [time.time()]
+
+    def rd_out():
+        for chunk in iter(lambda: p.stdout.read1(65536), b""):
+            out.append(chunk)
+            last[0] = time.time()
+
+    def rd_err():
+        for chunk in iter(lambda: p.stderr.read1(65536), b""):
+            err.append(chunk)
+
+    def wr():
+        try:
+            p.stdin.write(data)
+            p.stdin.close()
+        except Exception:
+            pass
+    ts = [threading.Thread(target=f, daemon=True) for f in (rd_out, rd_err, wr)]
+    for t in ts:
+        t.start()
+    t0 = time.time()
+    killed = False
+    while p.poll() is None:
+        time.sleep(0.05)
+        now = time.time()
+        if now - t0 > timeout or now - last[0] > stall:
+            p.kill()
+            killed = True
+            break
+    p.wait()
+    for t in ts[:2]:
+        t.join(timeout=5)
+    txt = b"".join(out).decode(errors="replace")
+    ls = txt.split("\n")
+    ls.pop()
+    etxt = b"".join(err).decode(errors="replace")
+    if killed:
+        etxt += "\nTIMEOUT"
+        return -999, ls, etxt
+    return p.returncode, ls, etxt
+
+
 def first_diff(a, b):
     for i in range(max(len(a), len(b))):
         x = a[i] if i < len(a) else "<missing>"
